@@ -25,6 +25,7 @@ FIXED = [x for x in envstr("VF_FIXED", "").split(";") if x]      # concrete exis
 JUNK = [x for x in envstr("VF_JUNK", "").split(";") if x]        # concrete junk paths, '@' stands for the root
 JPRE = envstr("VF_JPRE", "")                                     # symbolic junk: root-relative prefix
 JSUF = envstr("VF_JSUF", "")
+LISTLEG = envint("VF_LISTLEG", 1)
 import os as _os  # noqa: E402
 
 CONFIGS = list(conf.path_configs.keys())
@@ -175,6 +176,15 @@ def paths_agree(i: int, k: int) -> bool:
         except SpilException:
             return fail("spilexception")
         if not _cmp(got, want, c):
+            return False
+    if LISTLEG:
+        # "... FindInList over the corresponding list of Sids": the existing entities and their typed ancestors, as strings
+        lst = [e for (_t, e) in _typed_ancestors(kept) if _t in HAS_PATH[CONFIGS[0]]]
+        try:
+            got = list(FindInList(lst).find(SEARCH, as_sid=False))
+        except SpilException:
+            return fail("spilexception")
+        if not _cmp(got, want, "list"):
             return False
     return True
 
